@@ -692,9 +692,9 @@ func (e *Exec) havocLocs(sets map[string]*locSet) {
 			continue
 		}
 		cur := e.heapGet(k, sortS)
-		elem := sortS[len("(Array Int ") : len(sortS)-1]
+		src := e.fresh("Hv."+k, sortS)
 		for _, r := range ls.refs {
-			cur = mkStore(cur, r, e.fresh("hv", elem))
+			cur = mkStore(cur, r, sx("select", src, r))
 		}
 		e.heapSet(k, sortS, cur)
 	}
@@ -896,6 +896,13 @@ func (e *Exec) applyExtern(fn *types.Func, es *ExternSpec, f FuncV, args []Val, 
 				t = allT[i]
 			}
 			names[n] = boundVar{all[i], t}
+			ai := i
+			if sig.Recv() != nil && f.Recv != nil {
+				ai = i - 1
+			}
+			if raw, ok := e.rawArgs[c][ai]; ok && ai >= 0 {
+				names[n] = raw
+			}
 		}
 	}
 	e.trusted["extern spec "+es.Key+" ("+shortFile(es.File)+")"] = true
